@@ -160,8 +160,21 @@ func validateProtocolSequenceNames(env *Environment, errorSink *validation.Error
 
 func validateStreams(env *Environment, errorSink *validation.ErrorSink) *Environment {
 	VisitWithContext(env, nil, func(self VisitorWithContext[Node], node Node, context Node) {
-		switch node.(type) {
+		switch t := node.(type) {
 		case TypeDefinition:
+			self.VisitChildren(node, node)
+		case *ProtocolStep:
+			// Only the step's own type may be a stream. Anything nested inside it (stream items,
+			// vector items, generic type arguments...) is visited with the step as context so
+			// that a stream found there is reported.
+			if gt, ok := t.Type.(*GeneralizedType); ok {
+				if _, isStream := gt.Dimensionality.(*Stream); isStream {
+					for _, c := range gt.Cases {
+						self.Visit(c, node)
+					}
+					return
+				}
+			}
 			self.VisitChildren(node, node)
 		case *Stream:
 			if _, isProtocol := (context).(*ProtocolDefinition); !isProtocol {
